@@ -1,6 +1,7 @@
 CONSTANTS
   Kernel = "sinc4"
   Classes <- Sinc4Small
+  SumInSpec = TRUE
   Export = TRUE
 INIT Init
 NEXT Next
